@@ -64,13 +64,13 @@ static void put_enum(void) {
 	int firsts = 1;
 	printf("[");
 	while (0 == ini_sect_enum(ini, &so, &nm, &nms)) {
-		if (++guard > 100000) { printf("\"LOOP\""); break; }
+		if (++guard > 1000) { printf("\"LOOP\""); break; } /* stores of these tests stay below 300 lines: an enumeration that has not ended by now never will */
 		printf("%s{\"off\":%zu,\"name\":", firsts ? "" : ",", so); firsts = 0;
 		put_bytes(nm, nms);
 		printf(",\"vals\":[");
 		size_t vo = 0; int firstv = 1;
 		while (0 == ini_sect_val_enum(ini, so, &vo, &vn, &vns, &vv, &vvs)) {
-			if (++guard > 100000) { printf("\"LOOP\""); break; }
+			if (++guard > 1000) { printf("\"LOOP\""); break; } /* stores of these tests stay below 300 lines: an enumeration that has not ended by now never will */
 			printf("%s{\"off\":%zu,\"name\":", firstv ? "" : ",", vo); firstv = 0;
 			put_bytes(vn, vns);
 			printf(",\"val\":"); put_bytes(vv, vvs);
@@ -311,7 +311,7 @@ int main(void) {
 	setvbuf(stdout, NULL, _IOFBF, 1 << 20);
 	while (fgets(line, sizeof(line), stdin)) {
 		vh_set_tag(line);
-		alarm(60);
+		alarm(10); /* a case takes milliseconds: 10 s without an answer = the code under test does not terminate */
 		if (ini_create(&ini) != 0) abort();
 		first_ev = 1;
 		char *obuf = NULL; size_t olen = 0;
